@@ -85,6 +85,10 @@ def build(fr):
 
 def canon_series(s):
     if isinstance(s, pd.Series):
+        if len(s) > 200:
+            # long columns: a cheap, still exact, rendering (the cell-wise abstraction costs seconds per column here)
+            return canon([str(s.dtype), repr(s.name), [repr(i) for i in s.index[:5].tolist()], len(s),
+                          [repr(v) for v in s.tolist()]])
         return canon(col_obs_equiv(col_of(s)))
     return repr(type(s))
 
@@ -146,7 +150,8 @@ def check(fr, order):
                 break
     # C03 / C04 on the frame: every cast column belongs to, and is detected as, the type inferred for it; inferring or
     # casting the cast frame again changes nothing
-    if res["cast"][0] == "ok" and res["infer"][0] == "ok" and isinstance(res["cast"][1], pd.DataFrame) \
+    small = len(df) <= 200          # the long frames exist for the sampling check; the rest would only cost time on them
+    if small and res["cast"][0] == "ok" and res["infer"][0] == "ok" and isinstance(res["cast"][1], pd.DataFrame) \
             and list(res["cast"][1].columns) == list(df.columns):
         out, inf = res["cast"][1], res["infer"][1]
         for l in df.columns:
@@ -173,6 +178,24 @@ def check(fr, order):
         r = outcome(lambda: fn(df, ts))
         if res[key][0] == "ok" and (r[0] != "ok" or {repr(a): str(b) for a, b in r[1].items()} != {repr(a): str(b) for a, b in res[key][1].items()}):
             add("C08", "functional-differs:" + name, "functional.%s differs from the typeset method" % name)
+    # ... the cast wrappers, on the frame and on every column taken alone
+    for name, fn, key in (("cast_to_inferred", F.cast_to_inferred, "cast"), ("cast_to_detected", F.cast_to_detected, "castd")):
+        if res[key][0] != "ok" or not isinstance(res[key][1], pd.DataFrame):
+            continue
+        r = outcome(lambda: fn(df, ts))
+        if r[0] != "ok" or not isinstance(r[1], pd.DataFrame) or list(r[1].columns) != list(res[key][1].columns) or \
+                any(canon_series(r[1][l]) != canon_series(res[key][1][l]) for l in r[1].columns):
+            add("C08", "functional-differs:" + name, "functional.%s(frame) differs from the typeset method" % name)
+    for l in (list(df.columns)[:3] if small else []):
+        s1 = df[l]
+        for name, fn, meth in (("detect_type", F.detect_type, ts.detect_type), ("infer_type", F.infer_type, ts.infer_type)):
+            a, b = outcome(lambda: str(fn(s1, ts))), outcome(lambda: str(meth(s1)))
+            if a != b:
+                add("C08", "functional-differs:series:" + name, "functional.%s(series) = %s, typeset.%s = %s (column %r)" % (name, a, name, b, l))
+        for name, fn, meth in (("cast_to_inferred", F.cast_to_inferred, ts.cast_to_inferred), ("cast_to_detected", F.cast_to_detected, ts.cast_to_detected)):
+            a, b = outcome(lambda: canon_series(fn(s1, ts))), outcome(lambda: canon_series(meth(s1)))
+            if a != b:
+                add("C08", "functional-differs:series:" + name, "functional.%s(series) differs from typeset.%s (column %r)" % (name, name, l))
     if res["detect"][0] == "ok" and res["infer"][0] == "ok":
         cmp_ = outcome(lambda: F.compare_detect_inference_frame(df, ts))
         want = [(l, str(res["detect"][1][l]), str(res["infer"][1][l])) for l in df.columns]
@@ -189,7 +212,7 @@ def check(fr, order):
                 add("C08", "report-differs", "report text disagrees with the comparison")
     # sub-frames and column orders
     labs = list(df.columns)
-    if 2 <= len(labs) <= 3 and res["infer"][0] == "ok":
+    if 2 <= len(labs) <= 3 and res["infer"][0] == "ok" and (small or len(labs) == 2):
         for k in range(1, len(labs) + 1):
             for sub in itertools.permutations(labs, k):
                 sub = list(sub)
